@@ -36,12 +36,13 @@ import (
 	"fmt"
 	"go/ast"
 	"go/format"
-	"go/parser"
 	"go/token"
 	"os"
 	"path/filepath"
 	"sort"
 	"strings"
+
+	"gtverif/internal/srcset"
 )
 
 var atomicArity = map[string]int{"Load": 0, "Store": 1, "CompareAndSwap": 2, "Swap": 1, "Add": 1}
@@ -160,13 +161,77 @@ func assign(e env, fr *frame, name string, v aval, define bool) {
 
 // ---------- the package ----------
 type pkgInfo struct {
-	fset    *token.FileSet
-	files   map[string]*ast.File
-	funcs   map[string]*ast.FuncDecl // package-level functions
-	methods map[string]*ast.FuncDecl // methods by name (dropped when two types share the name)
-	holderT map[string]bool          // struct types holding an atomic.Pointer / atomic.Value
-	impure  map[*ast.FuncDecl]bool   // functions that (transitively) perform atomic operations / locking
-	source  map[*ast.FuncDecl]bool   // functions that look the shared holder up in a context
+	fset     *token.FileSet
+	files    map[string]*ast.File
+	funcs    map[string]*ast.FuncDecl // package-level functions
+	methods  map[string]*ast.FuncDecl // methods by name (dropped when two types share the name)
+	holderT  map[string]bool          // struct types holding an atomic.Pointer / atomic.Value
+	impure   map[*ast.FuncDecl]bool   // functions that (transitively) perform atomic operations / locking
+	source   map[*ast.FuncDecl]bool   // functions that look the shared holder up in a context
+	excluded []string                 // files of the directory rejected by the build context
+	inits    []*ast.FuncDecl
+	dupFuncs []string
+	sp       *srcset.Pkg
+}
+
+// structural: reasons why the package is not what the translation assumes, whatever the three
+// entry points look like (checked once, reported in every graph).
+func (p *pkgInfo) structural() []string {
+	var out []string
+	// the holder's atomic operations must be the promoted methods of sync/atomic's types
+	for t := range p.holderT {
+		for _, m := range p.sp.MethodsOf(t) {
+			if _, ok := atomicArity[m]; ok {
+				out = append(out, "type "+t+" declares its own method "+m+" (shadows the promoted atomic operation)")
+			}
+		}
+	}
+	for path, f := range p.files {
+		usesAtomic := false
+		ast.Inspect(f, func(n ast.Node) bool {
+			if sel, ok := n.(*ast.SelectorExpr); ok {
+				if id, ok := sel.X.(*ast.Ident); ok && id.Name == "atomic" && (sel.Sel.Name == "Pointer" || sel.Sel.Name == "Value") {
+					usesAtomic = true
+				}
+			}
+			return true
+		})
+		if !usesAtomic {
+			continue
+		}
+		ok := false
+		for _, im := range f.Imports {
+			if im.Path.Value == "\"sync/atomic\"" && (im.Name == nil || im.Name.Name == "atomic") {
+				ok = true
+			}
+		}
+		if !ok {
+			out = append(out, filepath.Base(path)+": `atomic` is not the package sync/atomic")
+		}
+	}
+	// the context key under which the holder travels must not be reassigned by anybody
+	keys := map[string]bool{}
+	for _, f := range p.files {
+		ast.Inspect(f, func(n ast.Node) bool {
+			ta, ok := n.(*ast.TypeAssertExpr)
+			if !ok || ta.Type == nil || !p.isHolderPtr(ta.Type) {
+				return true
+			}
+			if c, ok := ta.X.(*ast.CallExpr); ok && len(c.Args) == 1 {
+				if id, ok := c.Args[0].(*ast.Ident); ok {
+					keys[id.Name] = true
+				}
+			}
+			return true
+		})
+	}
+	for k := range keys {
+		if w := p.sp.WritesTo(k); len(w) > 0 {
+			out = append(out, "the context key "+k+" is written by "+strings.Join(w, ", "))
+		}
+	}
+	sort.Strings(out)
+	return out
 }
 
 func isAtomicType(t ast.Expr) bool {
@@ -185,21 +250,21 @@ func loadPkg(dir string) (*pkgInfo, error) {
 	p := &pkgInfo{fset: token.NewFileSet(), files: map[string]*ast.File{}, funcs: map[string]*ast.FuncDecl{},
 		methods: map[string]*ast.FuncDecl{}, holderT: map[string]bool{}, impure: map[*ast.FuncDecl]bool{},
 		source: map[*ast.FuncDecl]bool{}}
-	ents, err := os.ReadDir(dir)
+	// the files the compiler would take: build constraints, Go version tags, tag "verif"
+	sp, err := srcset.Load(dir, "verif")
 	if err != nil {
 		return nil, err
 	}
+	p.fset = sp.Fset
+	p.excluded = sp.Excluded
+	p.sp = sp
 	dup := map[string]bool{}
-	for _, en := range ents {
-		n := en.Name()
-		if en.IsDir() || !strings.HasSuffix(n, ".go") || strings.HasSuffix(n, "_test.go") || strings.HasPrefix(n, "zz_verif") {
+	for i, n := range sp.Names {
+		if strings.HasPrefix(n, "zz_verif") {
 			continue
 		}
 		path := filepath.Join(dir, n)
-		f, err := parser.ParseFile(p.fset, path, nil, parser.ParseComments)
-		if err != nil {
-			return nil, err
-		}
+		f := sp.Files[i]
 		p.files[path] = f
 		for _, d := range f.Decls {
 			switch x := d.(type) {
@@ -208,6 +273,11 @@ func loadPkg(dir string) (*pkgInfo, error) {
 					continue
 				}
 				if x.Recv == nil {
+					if x.Name.Name == "init" {
+						p.inits = append(p.inits, x)
+					} else if _, seen := p.funcs[x.Name.Name]; seen {
+						p.dupFuncs = append(p.dupFuncs, x.Name.Name)
+					}
 					p.funcs[x.Name.Name] = x
 				} else if _, seen := p.methods[x.Name.Name]; seen || dup[x.Name.Name] {
 					delete(p.methods, x.Name.Name)
@@ -234,17 +304,8 @@ func loadPkg(dir string) (*pkgInfo, error) {
 			}
 		}
 	}
-	// functions returning *holder and taking a context: they look the shared holder up
-	for _, fn := range p.funcs {
-		if fn.Type.Results == nil || len(fn.Type.Results.List) == 0 || !p.isHolderPtr(fn.Type.Results.List[0].Type) {
-			continue
-		}
-		for _, prm := range fn.Type.Params.List {
-			if sel, ok := prm.Type.(*ast.SelectorExpr); ok && sel.Sel.Name == "Context" {
-				p.source[fn] = true
-			}
-		}
-	}
+	// (no function is an opaque "source" of the holder any more: the lookup function is executed
+	// like every other helper; the holder enters through `ctx.Value(key).(*holderType)`)
 	// impure = performs an atomic operation or locks, directly or through a package function
 	for changed := true; changed; {
 		changed = false
@@ -327,6 +388,10 @@ func (p *pkgInfo) nodeImpure(n ast.Node) bool {
 	found := false
 	ast.Inspect(n, func(m ast.Node) bool {
 		if found {
+			return false
+		}
+		if ta, ok := m.(*ast.TypeAssertExpr); ok && ta.Type != nil && p.isHolderPtr(ta.Type) {
+			found = true // the holder enters here: ctx.Value(key).(*holderType)
 			return false
 		}
 		c, ok := m.(*ast.CallExpr)
@@ -767,7 +832,14 @@ func (x *xl) expr(ex ast.Expr, e env, fr *frame, k func([]aval, env) target) tar
 	case *ast.StarExpr:
 		return x.expr(t.X, e, fr, func(_ []aval, e2 env) target { return k([]aval{{}}, e2) })
 	case *ast.TypeAssertExpr:
-		return x.expr(t.X, e, fr, func(_ []aval, e2 env) target { return k([]aval{{}}, e2) })
+		return x.expr(t.X, e, fr, func(_ []aval, e2 env) target {
+			if t.Type != nil && x.p.isHolderPtr(t.Type) {
+				// the value stored in the context under the package's key: the holder that other
+				// contexts (goroutines) may share, and whether there is one
+				return k([]aval{{k: kHolder}, {k: kFound, b: true}}, e2)
+			}
+			return k([]aval{{}}, e2)
+		})
 	case *ast.IndexExpr:
 		return x.exprs([]ast.Expr{t.X, t.Index}, e, fr, func(_ []aval, e2 env) target { return k([]aval{{}}, e2) })
 	case *ast.KeyValueExpr:
@@ -807,7 +879,7 @@ func (x *xl) call(c *ast.CallExpr, e env, fr *frame, k func([]aval, env) target)
 					}
 					r := aval{}
 					if m == "CompareAndSwap" {
-						r = aval{} // unknown, and irrelevant for the shared holder
+						r = aval{k: kBool, b: true} // nobody else can have changed a thread-local holder
 					}
 					return k([]aval{r}, e2)
 				}
@@ -1153,7 +1225,12 @@ func (p *pkgInfo) graph(name string) (*xl, []string) {
 	fn := p.funcs[name]
 	x := &xl{p: p, root: name, memo: map[string]int{}, fresh: map[*ast.CallExpr]bool{}, shared: map[*ast.CallExpr]bool{}}
 	if fn == nil {
-		return x, []string{"IFunctionNotFound"}
+		return x, []string{"GFunctionNotFound (* " + name + " is not declared in the files that take part in the build; excluded by build constraints: " + strings.Join(p.excluded, " ") + " *)"}
+	}
+	for _, d := range p.dupFuncs {
+		if d == name {
+			return x, []string{"GDeclaredMoreThanOnce (* " + name + " *)"}
+		}
 	}
 	fr := &frame{id: name}
 	e := env{}
@@ -1219,6 +1296,9 @@ func (p *pkgInfo) graph(name string) (*xl, []string) {
 		}
 	}
 	for _, b := range x.bad {
+		out = append(out, "GUnsupported (* "+b+" *)")
+	}
+	for _, b := range p.structural() {
 		out = append(out, "GUnsupported (* "+b+" *)")
 	}
 	return x, out
